@@ -1,0 +1,29 @@
+// Copyright (C) 2026 Storj Labs, Inc.
+// See LICENSE for copying information.
+
+//go:build verif
+// +build verif
+
+package drpcdebug
+
+import "sync/atomic"
+
+var pointFn atomic.Value // of func(string)
+
+// SetPoint installs the function called at every scheduling point. Passing
+// nil removes it.
+func SetPoint(fn func(name string)) {
+	if fn == nil {
+		fn = func(string) {}
+	}
+	pointFn.Store(fn)
+}
+
+// Point is a scheduling point used by external verification harnesses: the
+// installed function may block the calling goroutine until the harness
+// releases it.
+func Point(name string) {
+	if fn, _ := pointFn.Load().(func(string)); fn != nil {
+		fn(name)
+	}
+}
